@@ -71,6 +71,19 @@ def run(tier, seed):
         "panic messages are inspected in the driver (TLC cannot search strings): flags 'contains assert_vfs_<macro>!' and 'contains the resolved path (Debug form or blank-delimited)'",
         "documentation-silent cases are DECISIONS in spec/VfsAssert.tla (both outcomes accepted, counted as decision-pass / decision-panic classes)",
     ]
+    # beyond the listed property: the machinery the macro tests themselves rely on - testing::capture_panic as a concurrent
+    # machine (PanicCapture.tla: count of captures in progress + process-wide hook), explored by TLC for all interleavings and
+    # bound to the real function by nesting shapes executed sequentially (hook probed before / inside / after) and in parallel
+    try:
+        out.add_mc("MC_PanicCapture", vlib.tlc_mc("MC_PanicCapture", "MC_PanicCapture.cfg" if tier == "thorough" else "MC_PanicCapture_Q.cfg", workers=4, coverage=False))
+        vlib.build("capture")
+        dcap = vlib.sub("capture")
+        fs1 = vlib.run_workers("capture", ["--mode", "seq", "--depth", "2", "--sandbox", dcap], 1, dcap, "seq")
+        fs2 = vlib.run_workers("capture", ["--mode", "par", "--rounds", "400" if tier == "thorough" else "60", "--seed", str(seed), "--sandbox", dcap], 1, dcap, "par")
+        checked, classes = vlib.tlc_validate("Trace_Capture", vlib.split_chunks(fs1 + fs2, dcap, "cap", 2000))
+        out.absorb("Trace_Capture", checked, classes, label="capture_panic")
+    except vlib.Stall as st:
+        vlib.stall_violation(out, st, "capture")
     out.finish(dict(rule="reachability fix-point of the real Memfs over names {a,b} x depth 2 x <=1 link x data {empty,'x'} (5415 states; %s); from each selected state all 19 macros x "
                          "every path of the namespace (+ the empty path and a relative unclean spelling) x every second path / data in {empty,'x'} / mode in {0o40755,0o40700,0o700} / "
                          "link-text expectation, on Memfs and (same trees, <=1 link) on Vfs::stdfs() in a sandbox; non-trivial = the macro passed, or it panicked about an existing entry / changed the state"
